@@ -107,6 +107,80 @@ theorem update_sound (s : State) (caller : Nat) (epoch : Int) (v : Voucher) (s' 
           · intro x hx; rw [hf] at hx; cases hx; exact Nat.lt_of_not_ge hn
           · rw [a5]; exact a4
 
+/-! ### Acceptance is complete for vouchers that merge distinct lanes -/
+
+theorem mergeLoop_complete (lane : Nat) (ms : List (Nat × Nat)) :
+    ∀ (ls : Lanes) (acc : Int),
+    (ms.map (·.1)).Nodup →
+    (∀ m ∈ ms, m.1 ≠ lane ∧ m.1 ≤ maxLane ∧ ∃ x, alookup m.1 ls = some x ∧ x.nonce < m.2) →
+    ∃ ls' r, mergeLoop lane ms ls acc = .ok (ls', r) := by
+  induction ms with
+  | nil => intro ls acc _ _; exact ⟨ls, acc, rfl⟩
+  | cons hd tl ih =>
+    intro ls acc hnd h
+    obtain ⟨ml, mn⟩ := hd
+    obtain ⟨h1, h2, x, hx, hn⟩ := h (ml, mn) (by simp)
+    simp only [List.map_cons, List.nodup_cons] at hnd
+    unfold mergeLoop
+    simp only at h1 h2 hx hn
+    have h2' : ¬ (ml > maxLane) := by omega
+    have h3 : ¬ (x.nonce ≥ mn) := by omega
+    simp only [h1, if_false, findLane, h2', hx, h3]
+    apply ih
+    · exact hnd.2
+    · intro m hm
+      obtain ⟨a1, a2, y, hy, hyn⟩ := h m (List.mem_cons_of_mem _ hm)
+      refine ⟨a1, a2, y, ?_, hyn⟩
+      have hne : m.1 ≠ ml := by
+        intro e
+        apply hnd.1
+        rw [List.mem_map]
+        exact ⟨m, hm, e⟩
+      rw [alookup_aset_other _ _ _ _ hne]
+      exact hy
+
+/-- **Acceptance is complete** (for vouchers whose merge list names distinct lanes): if the caller
+    is a channel party, the voucher is signed by the other party, names this channel, is inside its
+    time lock, carries the right secret, its `extra` call succeeds, the channel is not yet settled,
+    its lane and every merged lane exist with a lower nonce (merged lanes differ from the voucher's
+    lane), and the resulting amount owed lies in `[0, balance]`, then the voucher is accepted.
+    Together with `update_sound` this characterises acceptance exactly. -/
+theorem update_complete (s : State) (caller : Nat) (epoch : Int) (v : Voucher)
+    (hpre : PrecheckOk s caller epoch v) (hl : LanesOk s v)
+    (hnd : (v.merges.map (·.1)).Nodup)
+    (h0 : 0 ≤ newOwed s v) (h1 : newOwed s v ≤ s.balance) :
+    ∃ s', update s caller epoch v = .ok s' := by
+  obtain ⟨hlane, hnonce, hmerges⟩ := hl
+  unfold update
+  rw [(precheck_ok_iff s caller epoch v).mpr hpre]
+  simp only
+  unfold findLane
+  have hl' : ¬ (v.lane > maxLane) := by omega
+  simp only [hl', if_false]
+  obtain ⟨ls', r, hm⟩ := mergeLoop_complete v.lane v.merges s.lanes 0 hnd hmerges
+  obtain ⟨e1, _, _, _⟩ := mergeLoop_spec _ _ _ _ _ _ hm
+  have key : ∀ l : Lane, l.redeemed = redeemedOf s.lanes v.lane → ∃ s', redeem s v l = .ok s' := by
+    intro l hr
+    unfold redeem
+    simp only [hm]
+    have hsend : v.amount - (r + l.redeemed) + s.toSend = newOwed s v := by
+      simp [newOwed, e1, hr]; omega
+    rw [hsend]
+    have g1 : ¬ (newOwed s v < 0) := by omega
+    have g2 : ¬ (newOwed s v > s.balance) := by omega
+    simp only [g1, g2, if_false]
+    exact ⟨_, rfl⟩
+  cases hf : alookup v.lane s.lanes with
+  | none =>
+    simp only
+    exact key _ (by simp [redeemedOf, hf])
+  | some l =>
+    simp only
+    have hn := hnonce l hf
+    have hn' : ¬ (l.nonce ≥ v.nonce) := by omega
+    simp only [hn', if_false]
+    exact key l (by simp [redeemedOf, hf])
+
 /-! ### Lane nonces only grow; stale vouchers are rejected forever (no replay) -/
 
 /-- every lane present in `ls` is present in `ls'` with a nonce at least as large -/
